@@ -82,11 +82,15 @@ def register_forward_ref(
             #   attr1: 'forward' = Field(gt=1)
             #   attr2: 'forward' = Field(gt=2)
             # we use forward_key (attname) over forward_arg
-            forward_refs.setdefault(
-                f"${forward_key}" if forward_key else annotation.__forward_arg__,
-                # use a $ to differ from forward arg
-                (annotation, constraints),
-            )
+            key = f"${forward_key}" if forward_key else annotation.__forward_arg__
+            # use a $ to differ from forward arg
+            i = 0
+            while key in forward_refs and forward_refs[key][0] is not annotation:
+                # the same name used in another annotation (Optional['B'] and List['B'] hold
+                # different ForwardRef objects): every one of them has to be resolved later
+                i += 1
+                key = f"{annotation.__forward_arg__}#{i}"
+            forward_refs.setdefault(key, (annotation, constraints))
             # still not evaluated
             return annotation
         # raise TypeError(f'{repr(forward_key)}: Unsupported ForwardRef: {annotation}')
